@@ -62,7 +62,7 @@ func streamify(r *mon.Rand, g *gspec.GraphSpec) {
 func TestCheck(t *testing.T) {
 	cfg := mon.Load(ID)
 	rep := mon.NewReporter(cfg, "exploration",
-		"generated acyclic graph-AllPredecessor / Workflow specs and qualifying Pregel specs (END reached with no other node scheduled) in which every body natively streams from a Pipe(cap 0/1/3)+goroutine producer with padded outputs, with fan-out copies, fan-in merges, single/multi/stream/prefix-reading branch conditions, two branches per source, stream state handlers, key nodes, field mappings, nested graphs and callback handlers that close their stream copies at once, after a prefix, or read them fully; called through Stream and Transform; the caller reads j = 0,1,2,..,all chunks and closes. Oracle: after the run the process is driven to quiescence (goroutine-state monitor); no goroutine with an eino frame or a harness producer frame may remain parked, and every producer must have seen `closed` or finished. Precondition (from the statement) enforced on the reference run: every produced value has a consumer. A share of the cases (eager_test.go) are Workflows executed under PRNG-chosen delay plans (sleeps in node bodies and before single chunks: producers late / END path late / close race / slow chunks / none) in which streaming producers feed, through data-only inputs, nodes that a forced branch outcome skips (several skipped consumers, skipped chains, intermediates, merging intermediates, one copy consumed on the END path, a successor of the END path that becomes ready together with END; alone or nested in a DAG/Workflow/Pregel graph): the run returns at END while such producers are running, finished but not collected, or not started. Non-trivial: a run with >=2 goroutine-backed producers where the caller stopped before EOF or a branch/handler closed a copy early; distinct = (spec, input, stop point, handler mode).",
+		"generated acyclic graph-AllPredecessor / Workflow specs and qualifying Pregel specs (END reached with no other node scheduled) in which every body natively streams from a Pipe(cap 0/1/3)+goroutine producer with padded outputs, with fan-out copies, fan-in merges, single/multi/stream/prefix-reading branch conditions, two branches per source, stream state handlers, key nodes, field mappings, nested graphs and callback handlers that close their stream copies at once, after a prefix, or read them fully; called through Stream and Transform; the caller reads j = 0,1,2,..,all chunks and closes. Oracle: after the run the process is driven to quiescence (goroutine-state monitor); no goroutine with an eino frame or a harness producer frame may remain parked, and every producer must have seen `closed` or finished. Precondition (from the statement) enforced on the reference run: every produced value has a consumer. A share of the cases (eager_test.go) are Workflows executed under PRNG-chosen delay plans (sleeps in node bodies and before single chunks: producers late / END path late / close race / slow chunks / none) in which streaming producers feed, through data-only inputs, nodes that a forced branch outcome skips (several skipped consumers, skipped chains, intermediates, merging intermediates, one copy consumed on the END path, a successor of the END path that becomes ready together with END; alone or nested in a DAG/Workflow/Pregel graph): the run returns at END while such producers are running, finished but not collected, or not started. Another share (intwait_test.go) are Workflows compiled with a checkpoint store and interrupt-before/after nodes (the node that 1-3 streaming feeders feed, a feeder, or the next node of the chain) while the tail of the END path is delayed: END becomes ready while the run loop waits before interrupting; runs that interrupt are counted and not judged, runs that complete are judged like all others. Non-trivial: a run with >=2 goroutine-backed producers where the caller stopped before EOF or a branch/handler closed a copy early; distinct = (spec, input, stop point, handler mode).",
 		[]string{"the harness starts no timers (quiescence is state based)", "each reader is driven by one goroutine and closed once", "runs whose reference has a produced value without any consumer are skipped and counted"},
 		100)
 	defer func() {
@@ -75,6 +75,7 @@ func TestCheck(t *testing.T) {
 	rep.Require("leak_checks_settled", 50)
 	rep.Require("eager_end_runs_with_a_producer_returning_after_the_end_path", 20)
 	rep.Require("eager_end_runs_with_a_producer_returning_before_the_end_path", 20)
+	rep.Require("interrupt_wait_runs_completed_with_the_prepared_node_ready_and_never_started", 10)
 	rep.Cases(n, func(idx int64, rng *mon.Rand) {
 		if idx%8 == 7 {
 			surplusCase(ctx, rep, rng, cfg)
@@ -86,6 +87,10 @@ func TestCheck(t *testing.T) {
 		}
 		if idx%8 == 5 || idx%8 == 1 {
 			eagerEndCase(ctx, rep, rng, cfg)
+			return
+		}
+		if idx%16 == 14 {
+			intWaitCase(ctx, rep, rng, cfg)
 			return
 		}
 		mode := []gspec.Mode{gspec.DAG, gspec.Workflow, gspec.Pregel}[idx%3]
@@ -266,6 +271,7 @@ func oneRun(ctx context.Context, rep *mon.Reporter, spec *gspec.GraphSpec, r com
 	if hm != noHandler {
 		opts = append(opts, compose.WithCallbacks(handler(hm)))
 	}
+	opts = append(opts, runHooks.opts...)
 	wit := map[string]any{"spec": spec, "input": in, "paradigm": para, "stop_after_chunks": stop, "handler": hm.String()}
 	for k, v := range runHooks.witness {
 		wit[k] = v
@@ -321,6 +327,9 @@ func oneRun(ctx context.Context, rep *mon.Reporter, spec *gspec.GraphSpec, r com
 	if pnc != nil || runErr != nil {
 		// result correctness is C04's business; a failing run is not judged for leaks here
 		rep.Count("runs_failed_not_judged", 1)
+		if runErr != nil && runHooks.onErr != nil {
+			runHooks.onErr(runErr)
+		}
 		mon.Settle(3, 400)
 		return 0, false
 	}
